@@ -276,3 +276,37 @@ type EmptyStore struct{}
 func (EmptyStore) Get(string) ([]*operation.AnchoredOperation, error) {
 	return nil, fmt.Errorf("uniqueSuffix not found in the store")
 }
+
+// IntakeSession is one document handler (default decorator) kept across submissions while the store changes:
+// whatever the handler remembers between calls must not outlive a later deactivation.
+type IntakeSession struct {
+	store *sliceStore
+	dh    *dochandler.DocumentHandler
+}
+
+// NewIntakeSession creates the handler over an initially given store content.
+func NewIntakeSession(pc protocol.Client, pub []Placed) *IntakeSession {
+	st := &sliceStore{ops: pub}
+	proc := processor.New("verif", st, pc)
+	return &IntakeSession{store: st, dh: dochandler.New("did:sidetree", nil, pc, noopWriter{}, proc, NoopMetrics{})}
+}
+
+// SetStore replaces the anchored operations the handler's processor sees.
+func (s *IntakeSession) SetStore(pub []Placed) { s.store.ops = pub }
+
+// Submit hands a request to the same handler.
+func (s *IntakeSession) Submit(op *Op) (res string) {
+	defer func() {
+		if r := recover(); r != nil {
+			res = "panic:" + fmt.Sprint(r)
+		}
+	}()
+	_, err := s.dh.ProcessOperation(op.Request, 0)
+	switch {
+	case err == nil:
+		return "accepted"
+	case strings.Contains(err.Error(), "document has been deactivated"):
+		return "deactivated"
+	}
+	return "rejected-earlier"
+}
